@@ -796,6 +796,8 @@ def ev(ctx, node, env):
             if sv is not None and sv[0] == "angle" and node.attr == "_deg":
                 return T.call("red", sv[1])
             return ("attr", T.sym("self"), node.attr)
+        if isinstance(node.value, ast.Name) and node.value.id == "operator" and node.value.id not in env and node.attr in OPERATOR_FUNCS:
+            return ("funcref", "operator." + node.attr)
         if isinstance(node.value, ast.Name) and node.value.id not in env:
             # Class.method / module.function used as a value (handed to a helper as a callable)
             tgt_ = resolve_name(ctx, node.value.id)
@@ -874,6 +876,8 @@ def lookup(ctx, name, env):
     if name in m.globals:
         gnode = m.globals[name]
         return global_value(ctx, m.name, name, gnode)
+    if name in m.functions:
+        return ("funcref", "%s.%s" % (m.name, name))      # a module-level function used as a value (handed over as a callable)
     if name in m.imports:
         src, orig = m.imports[name]
         if src and src.startswith("pymeeus."):
@@ -906,6 +910,16 @@ def global_value(ctx, modname, name, gnode):
             v = ev(sub, gnode, {})
             if all(x[0] in ("num", "tuple", "list", "str", "sym") for x in v[1:]):
                 return v                   # a small literal sequence introduced by a refactoring (numbers, strings, type names)
+        except AnalysisError:
+            pass
+    if isinstance(gnode, ast.Call) and (inv is None or name not in inv["globals"]):
+        # a constant computed once at import time by a refactoring (e.g. sin(Angle(0, 0, 8.794).rad())): folded when it is closed
+        try:
+            sub = Ctx(ctx.repo, modname)
+            v = ev(sub, gnode, {})
+            if v[0] in ("num", "mul", "add", "call", "pow", "angle", "epoch") and not any(x[0] in ("sym", "opaque", "lt", "lv") and x != T.PI
+                                                                                          and not (x[0] == "sym" and x[1] in ("d2r", "pi")) for x in T.walk(v)):
+                return v
         except AnalysisError:
             pass
     if isinstance(gnode, ast.Dict) and len(gnode.keys) <= 64 and all(isinstance(k, ast.Constant) for k in gnode.keys) \
@@ -943,6 +957,8 @@ def binop(ctx, op, a, b):
     if k is ast.FloorDiv:
         if ka == "num" and kb == "num" and b[1] != 0:
             return T.num(Fraction(a[1] // b[1]))
+        if b == T.ONE:
+            return T.call("floor", a)
         return T.call("floordiv", a, b)
     return T.call(k.__name__, a, b)
 
@@ -1029,6 +1045,23 @@ def ev_call(ctx, node, env):
     # ---- plain names
     if isinstance(f, ast.Name):
         name = f.id
+        if name == "next" and name not in env and len(node.args) == 2 and isinstance(node.args[0], ast.GeneratorExp) \
+                and len(node.args[0].generators) == 1 and getattr(ctx, "unroll", 0):
+            # next((e for x in literal if c), default)  ==  c1 ? e1 : (c2 ? e2 : ... default)
+            g = node.args[0].generators[0]
+            items = iter_items(ev(ctx, g.iter, env))
+            if items is not None and len(items) <= ctx.unroll:
+                res = ev(ctx, node.args[1], env)
+                for item in reversed(items):
+                    env2 = dict(env)
+                    assign(ctx, g.target, item, env2)
+                    conds = [fold_bool(ev(ctx, c, env2)) for c in g.ifs]
+                    c_ = fold_bool(T.land(*conds)) if conds else ("bool", True)
+                    val = ev(ctx, node.args[0].elt, env2)
+                    res = val if c_ == ("bool", True) else res if c_ == ("bool", False) else merge_phi(c_, val, res)
+                return res
+        if name == "divmod" and name not in env and len(args) == 2 and not kws:
+            return ("tuple", binop(ctx, ast.FloorDiv(), args[0], args[1]), binop(ctx, ast.Mod(), args[0], args[1]))
         if name in env and env[name][0] == "closure":
             return inline_closure(ctx, ctx.closures[env[name][1]], args, kws, env)
         if name in env and env[name][0] == "funcref":
@@ -1112,6 +1145,18 @@ def ev_call(ctx, node, env):
                     return T.call("red", *args)
                 return repo_call(ctx, tgt + "." + meth, args, kws, star_kw, env)
         recv = ev(ctx, f.value, env)
+        if recv[0] == "sym" and "." not in recv[1] and "*" not in recv[1]:
+            # a class handed over as a value (`helper(Earth, epoch)` ... `planet.method(epoch)`): the call of one of its methods
+            cname = recv[1]
+            tgt_c = None
+            if cname in ctx.repo.modules and cname in ctx.repo.modules[cname].classes:
+                tgt_c = "%s.%s" % (cname, cname)
+            elif cname in ctx.mod.classes:
+                tgt_c = "%s.%s" % (ctx.mod.name, cname)
+            if tgt_c is not None:
+                m_c = ctx.repo.modules[tgt_c.split(".")[0]]
+                if ("%s.%s" % (tgt_c.split(".")[1], meth)) in m_c.functions:
+                    return repo_call(ctx, tgt_c + "." + meth, args, kws, star_kw, env)
         if recv[0] == "str" and not kws and meth in ("strip", "lstrip", "rstrip", "capitalize", "lower", "upper", "title") \
                 and all(a_[0] == "str" for a_ in args) and len(args) <= 1:
             return ("str", getattr(recv[1], meth)(*[a_[1] for a_ in args]))       # pure method of a literal string
@@ -1132,18 +1177,21 @@ def ev_call(ctx, node, env):
                 return to_positive(recv)
             if meth == "get_ra":
                 return T.div(T.call("red", recv[1]), T.num(15))
-            return T.call("Angle.Angle." + meth, recv, *args)
         if recv[0] in ("epoch", "angle") and ctx.inline_depth > 0:
             tgt_ = ("Epoch.Epoch." if recv[0] == "epoch" else "Angle.Angle.") + meth
             fn_ = new_helper(ctx, tgt_)
             if fn_ is not None:                 # a method introduced by a refactoring, called on a typed receiver
                 return inline_repo(ctx, tgt_, fn_, [recv] + args, kws, star_kw, env)
+        if recv[0] == "angle":
+            a2_, k2_ = _positionalise(ctx, "Angle.Angle." + meth, [recv] + list(args), kws)
+            return T.call("Angle.Angle." + meth, *a2_, *[("kw", k, v) for k, v in sorted(k2_.items())])
         if recv[0] == "epoch":
             if meth in ("jde",):
                 return recv[1]
             if meth == "mjd":
                 return T.sub(recv[1], T.num(Fraction("2400000.5")))
-            return T.call("Epoch.Epoch." + meth, recv, *args)
+            a2_, k2_ = _positionalise(ctx, "Epoch.Epoch." + meth, [recv] + list(args), kws)
+            return T.call("Epoch.Epoch." + meth, *a2_, *[("kw", k, v) for k, v in sorted(k2_.items())])
         if meth == "rad" and not args:
             return T.call("rad", recv)
         if meth == "jde" and not args:
@@ -1410,7 +1458,16 @@ def _positionalise(ctx, tgt, args, kws):
     return args, kws
 
 
+OPERATOR_FUNCS = {"lt": "Lt", "le": "LtE", "gt": "Gt", "ge": "GtE", "eq": "Eq", "ne": "NotEq",
+                  "add": ast.Add, "sub": ast.Sub, "mul": ast.Mult, "truediv": ast.Div, "mod": ast.Mod, "floordiv": ast.FloorDiv, "pow": ast.Pow}
+
+
 def repo_call(ctx, tgt, args, kws, star_kw, env=None):
+    if tgt.startswith("operator.") and tgt[9:] in OPERATOR_FUNCS and len(args) == 2 and not kws and not star_kw:
+        op = OPERATOR_FUNCS[tgt[9:]]
+        if isinstance(op, str):
+            return ("cmp", op, cmpval(args[0]), cmpval(args[1]))       # operator.lt(a, b) == a < b
+        return binop(ctx, op(), args[0], args[1])
     fn = new_helper(ctx, tgt) if ctx.inline_depth > 0 else None
     if fn is not None:
         return inline_repo(ctx, tgt, fn, args, kws, star_kw, env)
